@@ -41,7 +41,7 @@ type e2eEvent struct {
 }
 
 func TestC07EndToEnd(t *testing.T) {
-	sub := lab.Sub("breaker-end-to-end", "rapid histories over {request (one in five offering a protocol upgrade - websocket or h2c - or using POST/HEAD), request to a backend that never answers (cut by the 2 s handler timeout), set backend behaviour good/5xx/unreachable/abort-mid-body/103-then-5xx/103-then-200, advance} against the real "+
+	sub := lab.Sub("breaker-end-to-end", "rapid histories over {request (one in five offering a protocol upgrade - websocket or h2c - or using POST/HEAD), request to a backend that never answers (cut by the 2 s handler timeout), set backend behaviour good/5xx (500, 501, 502, 503, 504, 505, 507 or 599, drawn per backend)/unreachable/abort-mid-body/1xx-then-5xx/1xx-then-200 (interim 100, 102 or 103), advance} against the real "+
 		"LoadBalancer.ServeHTTP with circuit_breaker enabled by configuration, all five strategies, 1-3 scripted backends (L1), virtual time; "+
 		"monitor fed with client status + backend hit counts + published breaker state; non-trivial = breaker opened by proxied failures and half-open reached")
 	sub.NontrivialFloor(0.30)
@@ -81,6 +81,15 @@ func TestC07EndToEnd(t *testing.T) {
 			fn := lab.NewFakeNet()
 			fn.Install(lb)
 			behaviours := []lab.Behaviour{lab.Good, lab.Status5xx, lab.Unreachable, lab.AbortBody, lab.Status4xx, lab.Interim5xx, lab.InterimGood}
+			// which 5xx a failing backend answers with, and which interim status precedes "103-then-..." answers, is drawn
+			// per backend: every 5xx is a failed response, every 1xx is only interim
+			for bi := 0; bi < nb; bi++ {
+				fc := rapid.SampledFrom([]int{500, 500, 501, 502, 503, 504, 505, 507, 599}).Draw(rt, "fail_status")
+				ic := rapid.SampledFrom([]int{103, 103, 100, 102}).Draw(rt, "interim_status")
+				fn.SetFailStatus(lab.BackendHost(bi), fc)
+				fn.SetInterimStatus(lab.BackendHost(bi), ic)
+				evs = append(evs, e2eEvent{Kind: "codes", I: bi, B: fmt.Sprintf("5xx=%d interim=%d", fc, ic)})
+			}
 			for bi := 0; bi < nb; bi++ {
 				b := rapid.SampledFrom(behaviours).Draw(rt, "initial")
 				fn.Set(lab.BackendHost(bi), b)
